@@ -462,9 +462,28 @@ fn call(f: Func, args: &[Node], at: NV) -> R {
             if fs.is_empty() {
                 return num(0.0, Q::Tol(0.0));
             }
-            // Integers beyond 2^53 lose their identity when compared as doubles: not specified
+            // all Integers: min, max and the odd-count median are one of the arguments, exactly (also beyond 2^53,
+            // where two neighbours round to the same double)
+            let ints: Vec<i64> = vs.iter().filter_map(|v| if let NV::Int(i) = v.v { Some(i) } else { None }).collect();
+            if ints.len() == vs.len() && q == Q::Exact {
+                let pick = match f {
+                    Min => ints.iter().min().copied(),
+                    Max => ints.iter().max().copied(),
+                    Med if ints.len() % 2 == 1 => {
+                        let mut s = ints.clone();
+                        s.sort();
+                        Some(s[s.len() / 2])
+                    }
+                    _ => None,
+                };
+                if let Some(m) = pick {
+                    return RV::Val(NRef { v: NV::Int(m), typed: false }, Q::Exact);
+                }
+            }
+            // a Float next to an Integer beyond 2^53: which of two values that round to the same double is
+            // smaller is not decided by the statements
             if vs.iter().any(|v| v.v.f().abs() >= 9007199254740992.0) {
-                return RV::Unspec("U3: aggregate over magnitudes >= 2^53");
+                return RV::Unspec("U3: aggregate over mixed magnitudes >= 2^53");
             }
             let tolz = if q == Q::Exact { Q::Tol(0.0) } else { Q::Skip };
             match f {
